@@ -221,6 +221,20 @@ func TestVerifC15RecordChild(t *testing.T) {
 		}
 		fmt.Printf("C15CHILD\tDONE\t%s\n", status)
 	}
+	// first what `dawn list`, `dawn graph` and `dawn gc` do with the state: a load through the index, then the read-only
+	// accessors of every target (a panic in any of them kills this process: class "died")
+	if pi, err := Load(dir, &LoadOptions{PreferIndex: true}); err != nil {
+		fmt.Printf("C15CHILD\tINDEXLOAD\terror\n")
+	} else {
+		n := 0
+		for _, tg := range pi.Targets() {
+			n += len(tg.Dependencies()) + len(tg.Doc()) + len(tg.Label().String()) + len(DocSummary(tg))
+		}
+		for _, f := range pi.Flags() {
+			n += len(f.Name)
+		}
+		fmt.Printf("C15CHILD\tINDEXLOAD\tok %d\n", n)
+	}
 	proj, err := Load(dir, &LoadOptions{Events: ev})
 	if err != nil {
 		report("loaderr")
@@ -486,6 +500,21 @@ func c15retypes(rec []byte, add func(kind, detail string, data []byte)) {
 					m[d] = json.RawMessage(v)
 					b, _ := json.Marshal(m)
 					add("retype", "dependencies["+d+"]="+v, c15build(with("dependencies", string(b))))
+				}
+				// the KEY is a label: damaged into text that is still a JSON string but no label, or another label
+				for _, k2 := range []string{"//:/", "", ":", "/", "//", "no-colon", "//a:b:c", "source://", "//:", d + "/", d + ":x", strings.ToUpper(d), " " + d} {
+					if k2 == d {
+						continue
+					}
+					m := map[string]json.RawMessage{}
+					for k0, v0 := range deps {
+						if k0 != d {
+							m[k0] = v0
+						}
+					}
+					m[k2] = deps[d]
+					b, _ := json.Marshal(m)
+					add("retype", "dependency-key:"+d+"->"+strconv.Quote(k2), c15build(with("dependencies", string(b))))
 				}
 			}
 		}
